@@ -1,6 +1,7 @@
 package textwire
 
 import (
+	"path"
 	"strings"
 
 	"github.com/textwire/textwire/v2/config"
@@ -125,6 +126,12 @@ func Configure(opt *config.Config) {
 
 	if opt.TemplateDir != "" {
 		userConfig.TemplateDir = strings.Trim(opt.TemplateDir, "/")
+
+		// normalize doubled slashes and parent segments, so template
+		// names are always relative to the directory itself
+		if userConfig.TemplateDir != "" {
+			userConfig.TemplateDir = path.Clean(userConfig.TemplateDir)
+		}
 	}
 
 	if opt.TemplateExt != "" {
